@@ -72,6 +72,9 @@ Lemma parse_pi_shE s c :
   rsimE shp (parse_pi text C ev1 s c) (parse_pi text2 C ev2 (shs s) (fc c)).
 Proof.
   unfold parse_pi. cbv zeta. go. sync.
+  eapply rsimE_bind.
+  { destruct (starts_with _ (b "?>")); [apply rsimE_ret; reflexivity | use consume_spaces_shE]. }
+  intros s2 _; cbv beta. go. sync.
   match goal with |- context [slice_len ?x =? 0] => destruct (slice_len x =? 0) end; go.
 Qed.
 
